@@ -61,7 +61,7 @@ class Lazy(Machine):
                        "per_element_map", "negative_index", "index_out_of_range", "numpy_index",
                        "depth_ge_4", "interleaved_videos", "truncated_read_raises", "mixed_video_instrumented",
                        "read_folder_backed", "caller_list_mutated_after_use", "fancy_one_shot_iterable", "partial_iteration",
-                       "video_with_large_frames")
+                       "video_with_large_frames", "equal_but_different_plain_values")
 
     @classmethod
     def swarm(cls, rng, tier):
@@ -224,6 +224,9 @@ class Lazy(Machine):
             if found is None:
                 return ("garbage_frame", arr.tobytes().hex()[:24])
             return ("frame", found[0], found[1], lms)
+        if isinstance(x, (bool, int, float, str, bytes)) or (isinstance(x, tuple) and x and not isinstance(x[0], str)):
+            # "exactly the value": 1, 1.0 and True are equal and are three different values, so are 0.0 and -0.0
+            return ("value", type(x).__name__, repr(x))
         return x
 
     # model evaluation --------------------------------------------------
@@ -232,7 +235,7 @@ class Lazy(Machine):
         Raises InjectedIOError where an armed fault would fire (model of faults)."""
         t = e[0]
         if t == "const":
-            return e[1]
+            return self._canon(e[1])
         if t == "base":
             ev.append(("eval", e[1], e[2]))
             if (e[1], e[2]) in self._armed_view:
@@ -463,8 +466,11 @@ class Lazy(Machine):
                 ll = self._nonreading("init", lambda: LazyList([self._base_callable(b, i) for i in range(n)]))
                 model = [("base", b, i) for i in range(n)]
             elif how == 1:
-                ll = self._nonreading("init_from_iterable", lambda: LazyList.init_from_iterable([("c", b, i) for i in range(n)]))
-                model = [("const", ("c", b, i)) for i in range(n)]
+                items = [("c", b, i) for i in range(n)]
+                if b % 3 == 1:
+                    items = self._twins(b, n)
+                ll = self._nonreading("init_from_iterable", lambda: LazyList.init_from_iterable(list(items)))
+                model = [("const", v) for v in items]
             elif how == 2:
                 f = self._index_callable(b)
                 ll = self._nonreading("init_from_iterable_f", lambda: LazyList.init_from_iterable(list(range(n)), f=f))
@@ -632,10 +638,19 @@ class Lazy(Machine):
             m = model + model2
             self._put(new, m, op["dst"], "add(%s)" % self._prov[:40])
 
+    TWINS = [1, 1.0, True, 0, -0.0, 0.0, False, (1, 2), (1.0, 2.0), "1", b"1", -1, -1.0, (0,), (False,), (-0.0,)]
+
+    def _twins(self, b, n):
+        """Plain values that compare (and hash) equal to one another without being the same value."""
+        self.ctx.probe("equal_but_different_plain_values")
+        return [self.TWINS[(5 * b + 3 * i) % len(self.TWINS)] for i in range(n)]
+
     def _op_add_plain(self, op, ll, model):
         b = self.n_bases
         self.n_bases += 1
         plain = [("p", b, i) for i in range(op["n"])]
+        if b % 3 == 1:
+            plain = self._twins(b, op["n"])
         self.caller_lists.append(plain)
         new = self._nonreading("add_plain", lambda: ll + plain)
         if new is not None:
